@@ -224,6 +224,11 @@ CORPUS = [
          history=[(0, 0, [1, 2, 3], False), (1, 1, [3, 2, 1], False), (2, 2, [0, 0, 9], False)], force_multi=True),
     dict(kind="simplegp", k=1, only_best=False, fields=None, extras=[("c0", 30), ("c1", 31)], minimize=[False],
          history=[(0, 2, [1], False), (1, 3, [2], False)], force_multi=False),
+    # ONE objective given as a list (`minimize=[True]`: a multi-objective problem with one objective), best-only log, ties in the history
+    dict(kind="simplegp", k=1, only_best=True, fields=None, extras=[("c0", 30)], minimize=[True],
+         history=[(0, 2, [3], False), (1, 3, [3], False), (2, 1, [2], False), (3, 4, [2], False), (4, 5, [5], False), (5, 6, [2], False)], force_multi=True),
+    dict(kind="simplegp", k=1, only_best=True, fields=None, extras=[], minimize=[False],
+         history=[(0, 2, [1], False), (1, 3, [1], False), (2, 1, [4], False), (3, 4, [4], False)], force_multi=True),
     dict(kind="simplegp", k=3, only_best=True, fields=None, extras=[("c0", 30), ("c1", 31), ("c2", 32)],
          minimize=[False, False, True], history=[(0, 2, [1, 5, 2], False), (1, 3, [2, 6, 1], False), (2, 1, [0, 0, 0], False)],
          force_multi=False),
